@@ -67,6 +67,11 @@ def name_pool():
         for s in GNU_FAM + SYSV_FAM:
             pool.append(p + s)
     pool += ['a', 'b', 'c', 'd', 'aa', 'main', '_start', 'printf', '中文名字', 'Ünïcödé'] + textpool.SPECIAL_NAMES
+    # long names with multi-byte characters across every plausible read boundary (64 .. 4096 bytes): the character straddles the boundary
+    for k, b in enumerate((64, 128, 256, 512, 1024, 4096)):
+        pool.append('L' * (b - 1) + 'é中'[k % 2] + 'tail%d' % k)
+        if k % 2:
+            pool.append('M' * (b - 2) + '\U0001f600' + 'x')
     for i, n in enumerate(CARRY_NAMES):
         assert _sysv_unbounded(n.encode()) != W.sysv_hash(n.encode()) == _sysv_unbounded(n.encode()) & 0xffffffff, n
         pool.append(n)
